@@ -57,6 +57,9 @@ SHELL_OPS = ['k0', 'k0', 'fext', 'kT', 'fint', 'lb', 'static', 'static_nl', 'uvw
              'set_cores', 'set_ni_cores', 'save_load', 'plot', 'eigen']
 
 
+SOLVER_OPS = ('lb', 'lb_dense', 'lb_c', 'freq', 'freq_dense', 'static', 'static_nl', 'mod_lb', 'mod_freq', 'mod_static', 'eigen')
+
+
 def gen_flags(rng, p=0.2):
     return {f: float(rng.choice([0, 1])) for f in FLAGS if rng.random() < p}
 
@@ -104,6 +107,10 @@ def gen_ops(rng, menu, nmin=5, nmax=30, heavy=()):
               'nl': rng.random() < 0.5, 'k': rng.choice([1, 2, 3, 5, 8, 16]),
               'vec': rng.choice(['w', 'u', 'exx', 'Nxx', 'kxy']), 'atype': rng.choice([4, 4, 3]),
               'si': rng.randrange(3), 'region': rng.choice(['flange', 'base']), 'pidx': rng.randrange(4)}
+        if name in SOLVER_OPS and rng.random() < 0.2:
+            # fault plan: the j-th solver call (eigsh/eigs/spsolve) made by this operation fails
+            op['fault'] = {'call': rng.choice([1, 1, 2, 3, 5]),
+                           'kind': rng.choice(['ArpackNoConvergence', 'ArpackError', 'SingularFactor', 'MemoryError'])}
         ops.append(op)
     return ops
 
@@ -794,17 +801,39 @@ class KeySeam(object):
         self.seed = seed
         self.key = ''
         self.n = 0
+        self.nsolver = 0
+        self.fault = None
+        self.fired = None
         self.patched = []
 
-    def begin(self, key):
+    def begin(self, key, fault=None):
         self.key = key
         self.n = 0
+        self.nsolver = 0
+        self.fault = fault
+        self.fired = None
+
+    def maybe_fail(self):
+        self.nsolver += 1
+        if self.fault and self.nsolver == self.fault['call']:
+            from .eig import make_fault
+            self.fired = self.fault['kind']
+            raise make_fault(self.fault['kind'])
+
+    def wrap_plain(self, real):
+        seam = self
+
+        def wrapper(*a, **kw):
+            seam.maybe_fail()
+            return real(*a, **kw)
+        return wrapper
 
     def wrap(self, real):
         seam = self
 
         def wrapper(*a, **kw):
             import numpy as np
+            seam.maybe_fail()
             seam.n += 1
             A = kw.get('A', a[0] if a else None)
             n = A.shape[0]
@@ -829,6 +858,9 @@ class KeySeam(object):
                     real = getattr(mod, name)
                     self.patched.append((mod, name, real))
                     setattr(mod, name, self.wrap(real))
+        import compmech.sparse as msp
+        self.patched.append((msp, 'spsolve', msp.spsolve))
+        msp.spsolve = self.wrap_plain(msp.spsolve)
 
     def remove(self):
         for mod, name, real in self.patched:
@@ -836,9 +868,9 @@ class KeySeam(object):
         self.patched = []
 
 
-def outcome_of(kind, obj, op, env, d, seam, key):
+def outcome_of(kind, obj, op, env, d, seam, key, fault=None):
     """('value', canon) | ('raises', class name)"""
-    seam.begin(key)
+    seam.begin(key, fault)
     try:
         val = run_op(kind, obj, op, env, d)
     except (Violation, HarnessError):
@@ -894,7 +926,7 @@ def execute(scen):
                 log.add(idx, key, 'save_load')
                 prev_ops.append(name)
                 continue
-            out = outcome_of(kind, subject, op, env_s, d, seam, key)
+            out = outcome_of(kind, subject, op, env_s, d, seam, key, fault=op.get('fault'))
             what = env_s.check_inputs()
             if what:
                 raise Violation('H3-inputs', {'op': key, 'index': idx, 'why': 'caller-supplied %s was modified' % what,
@@ -904,6 +936,15 @@ def execute(scen):
             if name in NO_COMPARE:
                 log.add(idx, key, 'cfg')
                 prev_ops.append(name)
+                continue
+            if seam.fired:
+                # the operation was interrupted by an injected solver failure: its own outcome is not compared,
+                # but everything the object returns afterwards still has to equal the fresh-object outcome
+                bump(res['faults'], 'solver_failure_%s_in_%s' % (seam.fired, name))
+                log.add(idx, key, 'interrupted', out[0])
+                if out[0] == 'value':
+                    bump(res['probes'], 'injected_failure_absorbed_by_fallback')
+                prev_ops.append(name + '!')
                 continue
             # reference: the same operation alone on a fresh object, one thread
             if key not in refs:
@@ -975,6 +1016,7 @@ def execute(scen):
 def known_id_for(kind, key, out, ref, prev_ops, d):
     """Narrow matchers of the committed known findings (see KNOWN_FINDINGS.json)."""
     name = key.split('/')[0]
+    prev_ops = [o.rstrip('!') for o in prev_ops]
     if kind == 'shell' and d.get('Fc') is None and (name in ('lb', 'eigen') or 'lb' in prev_ops or 'eigen' in prev_ops):
         return 'C20-conecyl-lb-default-load'
     return None
